@@ -21,6 +21,26 @@ CHECKS = {
         "Trusts refmodel.plan_safety (40 lines, no speckit import) and the generator's reading of "
         "'admissible'. Says nothing about configurations not generated.",
         "DESIGN.md section 4, C02"),
+    "C03": (
+        "plan post-condition monitor (grid identities at rounding level on every plan observed) + "
+        "differential lpsd vs ltf(bmin=1,Lmin=1)",
+        "Exploration: the C02 configuration stream x 4 schedulers; r*L=fs, f[j+1]=f[j]+r[j], grid "
+        "start, Nyquist, b=f*L/fs checked to a few ulp, bmin shortfall bounded by one sample of L "
+        "(and the vectorised lookup-grid ratio); lpsd_plan compared field-by-field with "
+        "ltf_plan(bmin=1,Lmin=1).",
+        "Trusts refmodel.plan_grid. The bmin allowance is read generously (truncation or rounding "
+        "of L both pass).",
+        "DESIGN.md section 4, C03"),
+    "C04": (
+        "plan post-condition monitor with a configuration-derived 'unclamped bin' oracle + paired "
+        "ltf/vectorized runs + forced-bin-count analyses; known findings classified by mechanism",
+        "Exploration: monotonicity, nearest-integer averaging with the N-L+1 cap, even spreading, "
+        "realised overlap on every plan; log spacing and Kdes at bins the configuration says are "
+        "unclamped; vectorised-vs-iterative bin count; force_target_nf returns exactly the target "
+        "or raises.",
+        "Trusts refmodel.plan_spacing and its reading of 'no clamp active'. Two literal violations "
+        "of the 10 % clause are open known findings (KNOWN_FINDINGS.txt), matched by mechanism.",
+        "DESIGN.md section 4, C04"),
 }
 
 PENDING_REASON = "check not built yet in this revision of /verif (build in progress; see DESIGN.md)"
